@@ -2,7 +2,7 @@
    Model: Model/Pes.v (pes/pesheader.go, pes/pes.go, PES part of packet/packet.go).
    Spec: Spec/PesSpec.v (logical record + serialiser ser_pes, transport packet payload), Spec/TimestampSpec.v.
    Statements only; proofs in Proofs/PesDecode.v and Proofs/PesTotal.v. *)
-From Gots Require Import Base.Prelude Model.Pts Model.Pes Spec.TimestampSpec Spec.PesSpec Proofs.PesDecode Proofs.PesTotal.
+From Gots Require Import Base.Prelude Model.Pts Model.Pes Spec.TimestampSpec Spec.PesSpec Proofs.PesDecode Proofs.PesTotal Proofs.PesCreate.
 Import PesSpec.
 Local Open Scope N_scope.
 
@@ -67,6 +67,19 @@ Theorem C11_pes_pts_dts_readback : forall b v1 v2, (19 <= length b)%nat ->
     length b2 = length b /\ firstn 9 b2 = firstn 9 b /\ skipn 19 b2 = skipn 19 b.
 Proof. exact pes_pts_dts_readback. Qed.
 Print Assumptions C11_pes_pts_dts_readback.
+
+(* C04 end to end through the library's own builder: packet.WithPES(pkt, pts) on ANY 188-byte packet that leaves
+   room for the 14 header bytes (no adaptation field, or adaptation_field_length <= 169), then packet.Payload /
+   packet.PESHeader and NewPESHeader: the PTS is read back unchanged *)
+Theorem C11_with_pes_readback : forall pkt pts, length pkt = 188%nat -> pts < 8589934592 ->
+  Pes.pkt_payload_start pkt + 14 <= 188 ->
+  exists pkt' pay h, Pes.with_pes pkt pts = Ok pkt' /\ length pkt' = 188%nat /\
+    Pes.pkt_payload pkt' = Ok pay /\ (Pes.pkt_pusi pkt = true -> Pes.pkt_pes_header pkt' = Ok pay) /\
+    Pes.new_pes_header pay = Ok h /\
+    Pes.packetStartCodePrefix h = 1 /\ Pes.streamId h = 184 /\
+    Pes.has_pts h = true /\ Pes.has_dts h = false /\ Pes.pts h = pts.
+Proof. exact with_pes_readback. Qed.
+Print Assumptions C11_with_pes_readback.
 
 (* C05 for these entry points: NewPESHeader on ARBITRARY bytes is an error below 7 bytes and a header otherwise *)
 Theorem C11_new_pes_header_total : forall b,
